@@ -316,7 +316,7 @@ def spellings_of(layout):
 
 
 class Server:
-    def __init__(self, layout):
+    def __init__(self, layout, spell=None):
         from pydap.wsgi.app import DapServer
 
         self.layout = layout
@@ -325,7 +325,8 @@ class Server:
         # of the moment the server is created (plain, `./x/`, `..` from inside, `.`, `../x//` from a sibling, `""`) —
         # one server object per layout, the spelling a function of the layout
         info = getattr(layout, "seed_info", None) or {}
-        self.cwd, self.spelling = spellings_of(layout)[info.get("spell", info.get("idx", 0)) % N_SPELLINGS]
+        k = info.get("spell", info.get("idx", 0)) if spell is None else spell
+        self.cwd, self.spelling = spellings_of(layout)[k % N_SPELLINGS]
         old_cwd = os.getcwd()
         if self.cwd is None:
             self.cwd = old_cwd
@@ -413,6 +414,8 @@ class Server:
     def judge(self, ctx, r):
         L = self.layout
         case = {"root": L.root_name, "layout": L.seed_info, "url": r["url"]}
+        if "spell" in r:
+            case["spell"] = r["spell"]
         fails = []
         target = spec_resolve(L.root, r["path_info"])
         tpath = "/" + "/".join(target)
@@ -889,6 +892,14 @@ def pure_cases(ctx, rng, handlers, exts, n):
         cases.append(("path-gethandler %s %s" % (pats_sexp, segs_sexp(fp)), "none" if which is None else str(which), {"path": fp}))
         ctx.count(("rematch", fp), sup, tag="pure:rematch:%s" % ("supported" if sup else "letters-only" if base.lower().endswith(
             tuple(x.lower() for x in allexts)) else "no"))
+    # names outside ASCII (oracle only: the line protocol is ASCII): digits of other scripts are text to `[0-9]`
+    for lst in (["\u0663", "a.txt"], ["x\u00b2", "2", "b"], ["\u0967\u0968", "12", "t.csv"], ["\uff11", "1", "a1"]):
+        try:
+            sorted(lst, key=alphanum_key)
+        except TypeError:
+            ctx.oracle_fail("sorting a directory's names raises TypeError (text chunk compared with number chunk)",
+                            {"pure": "sort", "names": lst}, "TypeError", "a sorted listing")
+        ctx.count(("sortpy-u", tuple(lst)), True, tag="pure:sortpy:non-ascii-digits")
     # ---- alphanum_key and Python's own (partial) comparison of the keys --------------------------------------------
     digitish = ["2020_01.csv", "1", "01", "1a", "a1", "10", "9", "f9", "f10", "f010", "t.csv", "", "_", "0", "00", "a", "B", "007b"]
     for _ in range(n // 2):
@@ -948,6 +959,21 @@ def explore(ctx, tier, search=False):
                 ctx.count((li, url), tag not in ("notfound",), tag="%s:%s" % ("<=3" if nseg <= 3 else ">3", tag),
                           sample={"root": L.root_name, "url": url, "outcome": impl[:80]})
             ctx.correspond("DapServer.__call__ outcome", cases)
+            # every OTHER spelling of the same directory (absolute and relative), on a fixed family of requests: each must
+            # be judged like the canonical one, and the model is fed that spelling
+            scases = []
+            probe = ["/", "", "/t.csv", "/t.csv.dds", "/.csv.dds", "/sub/", "/sub/catalog.xml", "/catalog.xml", "/nope",
+                     "/../%s/secret.txt" % L.siblings[0], "/../%s/" % L.siblings[0], "/..", "/sub/../u.txt", "/oldcsv.dds",
+                     "/../%s/t.csv" % L.root_name, "/./sub/..//t.csv.das"]
+            for k in range(N_SPELLINGS):
+                sv = Server(L, spell=k)
+                for url in probe:
+                    r = sv.request(url)
+                    case_tag, failed = sv.judge(ctx, dict(r, spell=k))
+                    scases.append(("path-serve-spelled %s %s %s" % (sv.head, hexb(r["path_info"].encode()), fs), sv.canon(r),
+                                   {"layout": L.seed_info, "root": L.root_name, "url": url, "spell": k, "spelling": sv.spelling, "cwd": sv.cwd}))
+                    ctx.count((li, "spell", k, url), True, tag="spelling:%s:%s" % ("relative" if not sv.spelling.startswith("/") else "absolute", case_tag))
+            ctx.correspond("DapServer(spelling).__call__ outcome, every spelling of the data directory", scases)
             # histories (they change the layout: run last)
             interesting = [(c[2]["url"], c[1]) for c in cases if c[2]["url"].startswith("/")]
             rng.shuffle(interesting)
@@ -1051,7 +1077,7 @@ def replay(payload):
         if "history" in case:
             failed = run_history(ctx, L, [tuple(st) for st in case["history"]], {"layout": info, "root": L.root_name}, [])
         else:
-            srv = Server(L)
+            srv = Server(L, spell=case.get("spell"))
             r = srv.request(case["url"])
             tag, failed = srv.judge(ctx, r)
         for fl in ctx.oracle_failures:
